@@ -40,7 +40,12 @@ theorem lookup_append (l : List (String × Ns)) (kv : String × Ns) (p : String)
   | none => simp [hf] at h
   | some v => simp [List.find?_append, hf] at h ⊢; exact h
 
-/-- a later xmlns declaration never changes what an already bound prefix means -/
+theorem find_append_some {α} (l : List α) (x : α) (q : α → Bool) (n : α) (h : l.find? q = some n) :
+    (l ++ [x]).find? q = some n := by
+  simp [List.find?_append, h]
+
+/-- a later xmlns declaration never changes what an already bound prefix (or the default namespace)
+    means -/
 theorem c09_add_keeps_bindings (d : Doc) (a u p : String) (n : Ns) (h : lookupNs d p = some n) :
     lookupNs (d.addNamespaceReference a u) p = some n := by
   unfold Doc.addNamespaceReference
@@ -50,22 +55,85 @@ theorem c09_add_keeps_bindings (d : Doc) (a u p : String) (n : Ns) (h : lookupNs
     · exact h
     · split
       · exact h
-      · split <;> (unfold lookupNs at h ⊢; exact lookup_append _ _ _ _ h)
+      · split
+        · unfold lookupNs at h ⊢
+          split
+          · next hp => simpa [hp] using h
+          · next hp => simp only [hp, if_false] at h; exact lookup_append _ _ _ _ h
+        · unfold lookupNs at h ⊢
+          split
+          · next hp =>
+            simp only [hp, if_true] at h
+            cases hd : d.defaultNs with
+            | none => simp [hd] at h
+            | some u' =>
+              simp only [hd, Option.bind_some] at h ⊢
+              exact find_append_some _ _ _ _ h
+          · next hp => simp only [hp, if_false] at h; exact lookup_append _ _ _ _ h
 
-/-- merging an imported file never rebinds a prefix of the importer (both files may use `tns`) -/
-theorem c09_extend_keeps_bindings (me other : Doc) (p : String) (n : Ns) (h : lookupNs me p = some n) :
-    lookupNs (me.extend other) p = some n := by
-  unfold lookupNs Doc.extend at *
-  simp only
-  generalize other.lookup = ol
-  induction ol generalizing me with
+/-- the first default-namespace declaration of a file stands; a later one changes nothing that resolved -/
+theorem c09_default_keeps_bindings (d : Doc) (u p : String) (n : Ns) (h : lookupNs d p = some n) :
+    lookupNs (d.addDefaultNamespace u) p = some n := by
+  unfold Doc.addDefaultNamespace
+  split
+  · exact h
+  · next hc =>
+    simp only [Bool.or_eq_true, not_or, Bool.not_eq_true, Option.isSome_eq_false_iff, Option.isNone_iff_eq_none] at hc
+    unfold lookupNs at h ⊢
+    split
+    · next hp => simp [hp, hc.2] at h
+    · next hp => simpa [hp] using h
+
+/-- an unprefixed reference is resolved through the empty prefix, i.e. it denotes the default namespace
+    when one is bound and known — never a builtin of the same local name -/
+theorem c09_unprefixed_is_default (d : Doc) (l : String) (n : Ns)
+    (hp : lookupNs d "" = some n) (hsplit : splitType l = (l, some "")) :
+    asRustType d l = .other (xmlNameToRustName l) (some n.rustModName) := by
+  simp [asRustType, hsplit, hp]
+
+theorem lookup_fold_keeps (ol l : List (String × Ns)) (p : String) (n : Ns)
+    (h : (l.find? (fun x => x.1 == p)).map (·.2) = some n) :
+    ((ol.foldl (fun acc kv => if acc.any (fun x => x.1 == kv.1) then acc else acc ++ [kv]) l).find?
+      (fun x => x.1 == p)).map (·.2) = some n := by
+  induction ol generalizing l with
   | nil => simpa using h
   | cons kv rest ih =>
     simp only [List.foldl_cons]
     split
-    · exact ih me h
-    · have := lookup_append me.lookup kv p n h
-      exact ih { me with lookup := me.lookup ++ [kv] } this
+    · exact ih l h
+    · exact ih _ (lookup_append l kv p n h)
+
+theorem extendNoDuplicates_prefix (me other : List Ns) : ∃ extra, extendNoDuplicates me other = me ++ extra := by
+  unfold extendNoDuplicates
+  induction other generalizing me with
+  | nil => exact ⟨[], by simp⟩
+  | cons x rest ih =>
+    simp only [List.foldl_cons]
+    split
+    · exact ih me
+    · obtain ⟨e, he⟩ := ih (me ++ [x])
+      exact ⟨x :: e, by rw [he]; simp⟩
+
+/-- merging an imported file never rebinds a prefix of the importer (both files may use `tns`), nor its
+    default namespace -/
+theorem c09_extend_keeps_bindings (me other : Doc) (p : String) (n : Ns) (h : lookupNs me p = some n) :
+    lookupNs (me.extend other) p = some n := by
+  unfold lookupNs at h ⊢
+  unfold Doc.extend
+  simp only
+  split
+  · next hp =>
+    simp only [hp, if_true] at h
+    cases hd : me.defaultNs with
+    | none => simp [hd] at h
+    | some u =>
+      simp only [hd, Option.bind_some] at h ⊢
+      obtain ⟨e, he⟩ := extendNoDuplicates_prefix me.namespaces other.namespaces
+      rw [he]
+      simp [List.find?_append, h]
+  · next hp =>
+    simp only [hp] at h
+    exact lookup_fold_keeps other.lookup me.lookup p n h
 
 /-- a prefix bound to one of the schema's namespaces denotes a user type of that namespace's module,
     even when the local name is the name of an XSD builtin -/
